@@ -278,6 +278,14 @@ class Engine(ExprMixin, StmtMixin, CallMixin, BuiltinMixin, EngineBase):
         return self.bind(self.ev_list(node.args, p),
                          lambda q, vs: [(q, VInt(self.seq_count(self.to_seq(vs[0], q), vs[1])))])
 
+    def sp_countp(self, node, p):
+        """countp(seq, k, x): occurrences of x among the first k elements of seq."""
+        def k(q, vs):
+            s = self.to_seq(vs[0], q)
+            cnt = self.count_fn(s.elem)
+            return [(q, VInt(cnt(*s.arrs, *coerce(vs[2], s.elem).comps(), vs[1].z)))]
+        return self.bind(self.ev_list(node.args, p), k)
+
     def sp_seq_eq(self, node, p):
         return self.bind(self.ev_list(node.args, p),
                          lambda q, vs: [(q, VBool(val_eq(self.to_seq(vs[0], q), self.to_seq(vs[1], q, like=self.to_seq(vs[0], q).elem))))])
